@@ -29,17 +29,6 @@ theorem C01_tab_normalisation_only (c : Cfg L K) (norm : L → L) (hn : NormOK c
       = (render (onDisk c norm B F)).map norm :=
   regen_onDisk c norm hn B hB F hF
 
-theorem map_norm_onDisk (c : Cfg L K) (norm : L → L) (hn : NormOK c norm)
-    (B : K → List L) (F : List (Item L)) :
-    (render (onDisk c norm B F)).map norm = render (onDisk c norm (fun k => (B k).map norm) F) := by
-  rw [render_map]
-  congr 1
-  unfold onDisk
-  simp only [List.map_map]
-  apply List.map_congr_left
-  intro it _
-  cases it <;> simp [Item.edit, Item.mapLines, hn.idem]
-
 /-- **Fixed point.** Once the user text on disk is already in output form (which it is
     after any regeneration), regenerating changes nothing. -/
 theorem C01_fixed_point (c : Cfg L K) (norm : L → L) (hn : NormOK c norm)
@@ -79,7 +68,7 @@ theorem C01_each_block_once_in_order (c : Cfg L K) (norm : L → L)
     blocksOf c (onDisk c norm B F) = (blockKeys c F).map (fun k => (k, B k))
       ∧ (blockKeys c F).Nodup := by
   refine ⟨?_, hF.nodup⟩
-  rw [blocksOf_onDisk c norm B F _ hF.items]
+  rw [blocksOf_onDisk c norm B F hF.items]
   simp [blockKeys, Tags.keys, List.map_map, Function.comp_def]
 
 /-- Instance for the real configuration: `{{{USER_` prefix, `CleanUpLine`, TAB filter. -/
